@@ -309,12 +309,30 @@ func checkC07() fw.Check {
 										m.hops[t].dups = []time.Duration{time.Duration(25+t) * time.Millisecond}
 									}
 								}
+								// an ICMP error of someone else's probe (same addresses, an identifier this run never used) arrives among
+								// the replies: it is skipped, it neither enters the merge nor ends the run
+								prevExtra := m.extra
+								m.extra = func(e *simEnv, p *refmatch.Probe) {
+									if prevExtra != nil {
+										prevExtra(e, p)
+									}
+									if p.TTL == w.first+1 {
+										q := gen.QuoteBytes(p, 1, "fix")
+										if len(q) >= 8 {
+											q[4], q[5] = q[4]^0x5a, q[5]^0xa5 // IPv4 identification / IPv6 payload length
+											gen.FixIPv4Checksum(q, "fix")
+										}
+										e.inject(gen.WrapError(routerAddr(v.V6, 3, p.TTL), e.local, gen.TimeExceeded, 0, q, "min", nil, 0), "foreign-identifier", p, oddUS(2*time.Millisecond))
+									}
+								}
 								if order != "router-twice" {
 									other := 3 * time.Millisecond
 									if order == "dest-then-router" {
 										other = 70 * time.Millisecond
 									}
+									foreign := m.extra
 									m.extra = func(e *simEnv, p *refmatch.Probe) {
+										foreign(e, p)
 										if p.TTL == dist {
 											e.inject(gen.WrapError(routerAddr(v.V6, 2, p.TTL), e.local, gen.TimeExceeded, 0, gen.QuoteBytes(p, 1, "fix"), "min", nil, 0),
 												"second-path-router-same-ttl", p, oddUS(other))
